@@ -43,6 +43,7 @@
 EXTENDS Integers, Sequences, FiniteSets, TLC
 
 CONSTANTS
+  InitLen,         \* length of the source's first chain (blocks 1..InitLen)
   MaxLen,          \* longest source chain
   MaxSrcSteps,     \* source steps (extend + reorg)
   MaxReorgs,       \* of which reorgs
@@ -91,7 +92,7 @@ IdlePoll == [st |-> "idle", v0 |-> 0, rid |-> 0]
 NewTask(h) == [h |-> h, st |-> "run", v0 |-> 0, rid |-> 0, L |-> 0, kind |-> "none", blk |-> 0, bad |-> FALSE, lv |-> 0]
 
 Init ==
-  /\ versions = << <<1>> >> /\ nextTag = 2 /\ srcSteps = 0 /\ nReorgs = 0 /\ faults = 0
+  /\ versions = << [j \in 1..InitLen |-> j] >> /\ nextTag = InitLen + 1 /\ srcSteps = 0 /\ nReorgs = 0 /\ faults = 0
   /\ local = <<>>
   /\ cancelled = FALSE /\ nextFetch = 0 /\ weff = 1 /\ fq = <<>> /\ vq = <<>> /\ rv = NoRv
   /\ highest = -1 /\ catchUp = FALSE /\ poll = IdlePoll /\ polls = 0
